@@ -1874,3 +1874,79 @@ fn tape_chunk_case(boundary: usize) {
     kani::assert(matches!(t.next_block(), Ok(false)), "c16.tape_chunks.end_of_tape");
     kani::cover!(t.asset.pos == 7, "whole image consumed");
 }
+
+// ---- lead: C15 - an error while stepping to the next block must leave a tape that can still be used ----
+
+/// 140-byte image holder for blocks longer than the 128-byte read buffer
+pub(crate) struct BigBuf {
+    pub data: [u8; 140],
+    pub len: usize,
+}
+
+impl AsRef<[u8]> for BigBuf {
+    fn as_ref(&self) -> &[u8] {
+        &self.data[..self.len]
+    }
+}
+
+// @harness
+// @prop C15 C10
+// @tier quick
+// @timeout 900
+// @fn Tap::next_block; Tap::next_block_byte; Tap::process_clocks; Tap::play; BufferCursor::read; LoadableAsset::read_exact
+// @sym first, 128th and last byte of a 129-byte block (longer than the 128-byte read buffer, so the buffer has been refilled once), length field and the single data byte of a following block that is TRUNCATED (claims 2..=255 bytes, 1 present)
+// @assert consuming the long block delivers its bytes; stepping to the truncated block returns Err (not a panic); after that error every further use of the tape - asking for a byte, stepping again, pressing play and letting time pass - returns Ok or Err without panic, arithmetic overflow or out-of-bounds access
+// @bound one 129-byte block + one truncated block (unwind 135)
+#[kani::proof]
+#[kani::unwind(135)]
+fn c15_tape_usable_after_error_behind_a_long_block() {
+    let mut data = [0u8; 140];
+    data[0] = 129;
+    data[1] = 0;
+    let (first, mid, last): (u8, u8, u8) = (kani::any(), kani::any(), kani::any());
+    data[2] = first;
+    data[2 + 127] = mid;
+    data[2 + 128] = last;
+    // second block: length 2..=255, only one byte present
+    let claimed: u8 = kani::any();
+    kani::assume(claimed >= 2);
+    data[131] = claimed;
+    data[132] = 0;
+    data[133] = kani::any();
+    let mut t = match Tap::from_asset(crate::host::BufferCursor::new(BigBuf { data, len: 134 })) {
+        Ok(t) => t,
+        Err(_) => unreachable!(),
+    };
+    kani::assert(matches!(t.next_block(), Ok(true)), "c15.tape_err.long_block_found");
+    let mut i = 0;
+    let mut ok = true;
+    while i < 129 {
+        match t.next_block_byte() {
+            Ok(Some(b)) => {
+                if i == 0 {
+                    ok &= b == first;
+                }
+                if i == 127 {
+                    ok &= b == mid;
+                }
+                if i == 128 {
+                    ok &= b == last;
+                }
+            }
+            _ => ok = false,
+        }
+        i += 1;
+    }
+    kani::assert(ok, "c15.tape_err.long_block_bytes");
+    kani::assert(t.next_block().is_err(), "c15.tape_err.truncated_block_is_an_error");
+    // the deck is still there: none of these may panic (Kani's implicit checks are the assertion)
+    let r1 = t.next_block_byte();
+    let r2 = t.next_block();
+    t.play();
+    let r3 = t.process_clocks(1);
+    let r4 = t.process_clocks(3_500_000);
+    let r5 = t.process_clocks(8);
+    kani::cover!(r1.is_ok() || r1.is_err(), "byte request after the error returned");
+    kani::cover!(r2.is_ok() || r2.is_err(), "step after the error returned");
+    kani::cover!((r3.is_ok() || r3.is_err()) && (r4.is_ok() || r4.is_err()) && (r5.is_ok() || r5.is_err()), "playing after the error returned");
+}
